@@ -18,4 +18,18 @@ PROPS = {
         "level_note": "Trusted: Lean kernel; correspondence harness (sets file mode on the reference backend and the node owner through a test hook, then sends real ACCESS calls); Go's os.FileMode bit layout.",
         "assumptions": ["file mode comes from the backend's Lstat and owner from the handle's node attributes, as handleAccess reads them"],
     },
+    "C09": {
+        "lean": "Props.C09",
+        "facts": ["securePortBound", "authFilterNormalises", "serverFilterNormalises"],
+        "level_text": "Theorems over parsed addresses (all lists, all prefix lengths): admitted by a non-empty list iff some well-formed entry equals the normalised client or is a CIDR whose leading prefix bits equal the client's; malformed clients rejected, malformed entries skipped; IPv4-mapped = IPv4; the gate denies whenever the filter or the secure-port rule (bound regenerated from the source, pinned to 1024) fails, for every flavor/body. Both Go filters and ValidateAuthentication are differentially checked against the model on the same texts; HandleCall is run with a recording backend for denied clients (MSG_DENIED, no backend call, every program/procedure).",
+        "level_note": "Trusted: Lean kernel; net.ParseIP/ParseCIDR/IPNet (address text parsing is Go's, the model starts from parsed values); extractor; harness. Partial in one respect: 'reaches no handler or backend call' is observed by the harness on the real HandleCall, the theorem covers the decision (denied) only.",
+        "assumptions": ["IPv6-text CIDRs shorter than /96 are not compared with IPv4 clients by the independent oracle (Go compares address families; the property is silent)"],
+    },
+    "C10": {
+        "lean": "Props.C10",
+        "facts": ["squashCopiesBeforeWrite", "maxAuxGids"],
+        "level_text": "Full-strength theorems per squash mode exactly as the property states them (all / root incl. per-position auxiliary gids / none / unrecognised), case-insensitive mode comparison, AUTH_NONE -> 65534/65534 under every mode, other flavors and undecodable AUTH_SYS bodies denied, a decodable body gets exactly squash(mode, credential). ValidateAuthentication is differentially checked against the model over boundary ids, aux lists up to 17, mode spellings and body truncations; aliasing (the caller's auxiliary-gid array is never written) is a regenerated structural fact plus a before/after comparison on the real code.",
+        "level_note": "Trusted: Lean kernel; extractor; harness; strings.ToLower agrees with ASCII lower-casing on the four recognised mode words (no non-ASCII letter lower-cases to r,o,t,a,l,n,e).",
+        "assumptions": ["pointer aliasing is outside the value model: checked structurally (Gen.squashCopiesBeforeWrite) and by before/after comparison in the harness"],
+    },
 }
